@@ -398,8 +398,8 @@ def specs(tier, seed, concrete=False):
     global ACLS
     from . import c04
     ACLS = [[n, s] for n, s in c04._selections(tier, seed)][::(3 if tier == "quick" else 1)]
-    rows, info = covering_array(G.DIMS, t=2 if tier == "quick" else 3, seed=seed + 1, valid=G.row_valid,
-                                candidates=30 if tier == "quick" else 12)
+    rows, info = ([], {}) if concrete else covering_array(G.DIMS, t=2 if tier == "quick" else 3, seed=seed + 1, valid=G.row_valid,
+                                                           candidates=30 if tier == "quick" else 12)
     return [
         Spec("port", h_port, [{"form": f} for f in PORT_LINES], goals=["port"], describe="Port"),
         Spec("protocol", h_protocol, [{"form": f} for f in ["ip", "tcp", "icmp", "ospf", "ahp", "nsym"]], goals=["protocol"], describe="Protocol"),
